@@ -61,6 +61,8 @@ class Exec:
         self.do("feed 4000")
 
     def unfinished(self):
+        if getattr(self, "deadlock", None):
+            return []
         out = []
         for t, lt in enumerate(self.rig.threads):
             if lt.state != "idle" or self.progs[t]:
@@ -75,7 +77,15 @@ class Exec:
         was_linked = self.rig.linked
         holders = {t: lt.info for t, lt in enumerate(self.rig.threads)
                    if lt.state == "hold" and lt.info[0] in "dx"}
-        self.rig.do(op)
+        if getattr(self, "deadlock", None):
+            return
+        try:
+            self.rig.do(op)
+        except lib_chan.RigDeadlock as e:
+            self.deadlock = "%s at %r" % (e, op)
+            self.reqs.append(op)
+            self.impl.append("*")
+            return
         if not before and c.eof_sent:
             self.racers = holders
         if not closed_before and c.closed:
@@ -195,6 +205,8 @@ def judge(ctx, ex, case):
     pp = ex.rig.protocol_problem()
     if pp is not None:
         ctx.fail(pp[0], case, pp[1])
+    elif getattr(ex, "deadlock", None):
+        ctx.fail("deadlock:real-code-blocked-under-the-schedule", case, ex.deadlock)
 
 
 def run_order(progs, order, peer_win):
